@@ -22,6 +22,7 @@ func init() {
 			{"SLICE-REMOVE", ruleSliceRemove},
 			{"NONCE", ruleNonce},
 			{"SETID-SORTED", ruleSetIDSorted},
+			{"DOCID-VERIFY", ruleDocIDVerify},
 		},
 		Meta: eng.PropMeta{
 			Explanation: "Decides the structural conditions of 'identifiers are pure functions of content': (PURITY) the call-graph cones of Document.GenerateDocID, setSchemaIDs/generateSetID and the cid/docID constructors read no clock, randomness, environment, host identity or mutable package state; (CANONICAL-CBOR) Document.Bytes encodes with the encoder derived from cbor.CanonicalEncOptions(), omits nil fields (toMap(true)) and GenerateDocID appends the schema root before hashing; (MAPRANGE) every range over a Go map inside those cones is order-insensitive by an accepted idiom (keyed writes, set insert/delete, commutative accumulation, append-then-sort) or is a tabled exception with its reason; (SLICE-REMOVE) every hand-rolled 'remove element i' (make(len-1) + two copies) copies old[:i] and old[i+1:] — the proviso under which the pruning loop of getSchemaSets is confluent; (SETID-SORTED) generateSetID sorts the set by name before encoding it; (NONCE) the counter nonce is zero on create so genesis blocks are reproducible.",
@@ -177,6 +178,12 @@ func ruleMapRange(c *eng.Ctx) {
 			k++
 			construct := fmt.Sprintf("%s:range#%d(%s)", shortFn(fi), k, eng.ExprStr(rs.X))
 			if why, ok := mapRangeExceptions[construct]; ok {
+				// side condition of every tabled loop: no state is carried from one iteration to the
+				// next through a variable declared outside the loop body that the body both writes and reads
+				if v := loopCarried(info, rs); v != "" {
+					c.Bad(rule, construct, rs.Pos(), "tabled as order-insensitive, but variable "+v+" (declared outside the loop body) is written and read inside it: what one element does now depends on which elements were visited before — the result depends on map iteration order")
+					return true
+				}
 				c.OK(rule, construct, rs.Pos(), "tabled exception: "+why)
 				return true
 			}
@@ -390,4 +397,124 @@ func ruleSliceRemove(c *eng.Ctx) {
 		})
 	}
 	c.Notes = append(c.Notes, fmt.Sprintf("SLICE-REMOVE: %d hand-rolled removals examined (bug-pattern rule: 0 is legitimate)", n))
+}
+
+// loopCarried returns the name of a variable declared outside the range body that the body both
+// assigns and reads (other than the ranged collection itself), or "".
+func loopCarried(info *types.Info, rs *ast.RangeStmt) string {
+	written := map[types.Object]bool{}
+	ast.Inspect(rs.Body, func(m ast.Node) bool {
+		switch s := m.(type) {
+		case *ast.AssignStmt:
+			for _, l := range s.Lhs {
+				if id, ok := ast.Unparen(l).(*ast.Ident); ok && s.Tok != token.DEFINE {
+					if o := info.ObjectOf(id); o != nil && !(rs.Body.Pos() <= o.Pos() && o.Pos() <= rs.Body.End()) {
+						written[o] = true
+					}
+				}
+			}
+		case *ast.IncDecStmt:
+			if id, ok := ast.Unparen(s.X).(*ast.Ident); ok {
+				if o := info.ObjectOf(id); o != nil && !(rs.Body.Pos() <= o.Pos() && o.Pos() <= rs.Body.End()) {
+					written[o] = true
+				}
+			}
+		}
+		return true
+	})
+	name := ""
+	var stack []ast.Node
+	ast.Inspect(rs.Body, func(m ast.Node) bool {
+		if m == nil {
+			stack = stack[:len(stack)-1]
+			return true
+		}
+		stack = append(stack, m)
+		id, ok := m.(*ast.Ident)
+		if !ok || !written[info.Uses[id]] {
+			return true
+		}
+		// a read: not the LHS of an assignment
+		if len(stack) >= 2 {
+			if as, ok := stack[len(stack)-2].(*ast.AssignStmt); ok {
+				for _, l := range as.Lhs {
+					if l == ast.Expr(id) {
+						return true
+					}
+				}
+			}
+			if inc, ok := stack[len(stack)-2].(*ast.IncDecStmt); ok && inc.X == ast.Expr(id) {
+				return true
+			}
+			// x = append(x, ...): accumulation, the reason such a loop is tabled in the first place
+			if call, ok := stack[len(stack)-2].(*ast.CallExpr); ok && len(call.Args) > 0 && call.Args[0] == ast.Expr(id) {
+				if f, ok := call.Fun.(*ast.Ident); ok && f.Name == "append" {
+					return true
+				}
+			}
+		}
+		name = id.Name
+		return true
+	})
+	return name
+}
+
+// ruleDocIDVerify: on create the identifier derived from the content is the one that is used and
+// the one the document's carried id is checked against.
+func ruleDocIDVerify(c *eng.Ctx) {
+	const rule = "DOCID-VERIFY"
+	fi := c.Anchor(rule, "internal/db.(*collection).getDocIDAndPrimaryKeyFromDoc")
+	if fi == nil {
+		return
+	}
+	info := fi.Pkg.TypesInfo
+	var gen types.Object
+	ast.Inspect(fi.Decl.Body, func(m ast.Node) bool {
+		if as, ok := m.(*ast.AssignStmt); ok && len(as.Rhs) == 1 && len(as.Lhs) == 2 {
+			if call, ok := as.Rhs[0].(*ast.CallExpr); ok && eng.CalleeName(info, call) == "client.(*Document).GenerateDocID" {
+				gen = eng.ObjOf(info, as.Lhs[0])
+			}
+		}
+		return true
+	})
+	if gen == nil {
+		c.Bad(rule, "create:docID-generated-from-content", fi.Decl.Pos(), "the create path no longer derives the document id from the document's content")
+		return
+	}
+	var pk types.Object
+	keyFromGen := false
+	for _, cs := range eng.Calls(info, fi.Decl.Body) {
+		if cs.Name == "internal/db.(*collection).getPrimaryKeyFromDocID" && len(cs.Call.Args) == 2 {
+			keyFromGen = eng.ObjOf(info, cs.Call.Args[1]) == gen
+			if as := assignOf(fi.Decl.Body, cs.Call); as != nil {
+				pk = eng.ObjOf(info, as.Lhs[0])
+			}
+			c.Check(keyFromGen, rule, "create:primary-key-from-generated-id", cs.Call.Pos(), "the primary key is built from the content-derived id",
+				"the primary key is built from "+eng.ExprStr(cs.Call.Args[1])+" instead of the id generated from the document's content: the verification below compares the carried id with itself and a document is stored under whatever id it carries")
+		}
+	}
+	// the carried id is compared with the derived one and a mismatch is an error
+	cmp := false
+	ast.Inspect(fi.Decl.Body, func(m ast.Node) bool {
+		is, ok := m.(*ast.IfStmt)
+		if !ok {
+			return true
+		}
+		be, ok := ast.Unparen(is.Cond).(*ast.BinaryExpr)
+		if !ok || be.Op != token.NEQ {
+			return true
+		}
+		s := eng.ExprStr(be)
+		if strings.Contains(s, ".ID()") && (mentionsObj(info, be, gen) || (pk != nil && mentionsObj(info, be, pk))) {
+			for _, st := range is.Body.List {
+				if r, ok := st.(*ast.ReturnStmt); ok && len(r.Results) > 0 {
+					if tv, ok := info.Types[r.Results[len(r.Results)-1]]; !ok || !tv.IsNil() {
+						cmp = true
+					}
+				}
+			}
+		}
+		return true
+	})
+	c.Check(cmp, rule, "create:carried-id-verified", fi.Decl.Pos(), "a document whose carried id differs from its content-derived id is refused", "the create path no longer refuses a document whose carried id differs from the id derived from its content")
 }
